@@ -344,8 +344,8 @@ fn c19_slot_fields_cross_read() {
     kani::cover!(user.is_some() && sys.is_none(), "data root only");
 }
 
-// @harness props=C19 tier=quick timeout=1800 mem=16
-// @desc checksum agreement on fixed vectors: for three concrete commit slots the slot written by this version verifies under redb 3.0.0's reader (its own xxh3 copy) and conversely - a cross-check of the two xxh3 copies on constants, NOT a proof of their equivalence
+// @harness props=C19 tier=thorough timeout=7200 mem=32
+// @desc (attempted: did not close in 1800 s in the quick tier) checksum agreement on fixed vectors: for three concrete commit slots the slot written by this version verifies under redb 3.0.0's reader (its own xxh3 copy) and conversely - a cross-check of the two xxh3 copies on constants, NOT a proof of their equivalence
 // @functions cur and v3: TransactionHeader::{to_bytes,from_bytes}, hash128_with_seed
 // @bound three concrete slots (constant inputs: CBMC evaluates both hash functions)
 #[kani::proof]
